@@ -405,6 +405,18 @@ def gen_script_queue(rnd, dyn=None):
         handlers[h] = [k, acts]
     nodes, edges = rand_net(rnd, 2, 5)
     posts = [[rnd.choice(times), rnd.choice(nodes), rnd.randrange(nh)] for _ in range(rnd.randint(2, 7))]
+    if rnd.random() < 0.3:
+        # a fuller queue: 8-16 events posted in no particular order of time, and a first handler (due at 0) that un-posts several of them
+        # from the middle of the heap and posts a few more
+        grid = [0.25 * k for k in range(1, 25)]
+        posts = [[rnd.choice(grid), rnd.choice(nodes), rnd.randrange(1, nh)] for _ in range(rnd.randint(8, 16))]
+        first = [['UNPOST', rnd.randrange(len(posts)), False] for _ in range(rnd.randint(1, 4))] + \
+                [['POSTABS', rnd.choice(grid), rnd.randrange(1, nh)] for _ in range(rnd.randint(0, 2))] + \
+                [['UNPOST', rnd.randrange(len(posts) + 2), False] for _ in range(rnd.randint(0, 2))]
+        handlers[0] = ['N', first]
+        posts.insert(rnd.randrange(len(posts) + 1), [0.0, rnd.choice(nodes), 0])
+        handlers = [[k_, [a for a in acts if not (a[0] in ('POSTABS', 'POSTE') and a[2] == 0)]] for (k_, acts) in handlers[:1]] + \
+                   [[k_, [a for a in acts if not (a[0] in ('POSTABS', 'POSTE') and a[2] == 0)]] for (k_, acts) in handlers[1:]]
     perel = [[0, rnd.choice([0.125, 0.5]), rnd.randrange(nh)]] if rnd.random() < 0.6 else []
     fixed = [[rnd.randrange(2), rnd.choice([0.25, 0.5, 1.0]), rnd.randrange(nh)]] if rnd.random() < 0.5 else []
     sp = dict(comps=[0.5, 0.5], nodeloci=[0, 1], edgeloci=[], multiloci=[], perel=perel, fixed=fixed, handlers=handlers, posts=posts)
